@@ -126,6 +126,43 @@ MUTANTS = [
      'except Exception:', ['malt.operators.variables.ldu']),
     ('c01-not-eq-is-eq', 'malt/operators/logical.py', '  return not_(eq(a, b))', '  return eq(a, b)',
      ['malt.operators.logical.not_eq']),
+    ('c09-erase-kwdefaults-including-none', 'malt/pyct/transpiler.py', '''    for i, d in enumerate(args.kw_defaults):
+      if d is not None:
+        args.kw_defaults[i] = parser.parse_expression('None')''', '''    for i, d in enumerate(args.kw_defaults):
+      args.kw_defaults[i] = parser.parse_expression('None')''', ['malt.pyct.transpiler.GenericTranspiler._erase_arg_defaults']),
+    ('c09-erase-skips-last-default', 'malt/pyct/transpiler.py', 'for i in range(len(args.defaults)):',
+     'for i in range(len(args.defaults) - 1):', ['malt.pyct.transpiler.GenericTranspiler._erase_arg_defaults']),
+    ('c14-sorted-drops-reverse', 'malt/operators/py_builtins.py', 'return sorted(iterable, key=key, reverse=reverse)',
+     'return sorted(iterable, key=key)', ['malt.operators.py_builtins.sorted_']),
+    ('c14-range-ignores-step', 'malt/operators/py_builtins.py', 'return range(start_or_stop, stop, step)',
+     'return range(start_or_stop, stop)', ['malt.operators.py_builtins.range_']),
+    ('c14-int-ignores-base', 'malt/operators/py_builtins.py', 'return int(x, base)', 'return int(x)',
+     ['malt.operators.py_builtins.int_']),
+    ('c12-keyerror-plain', 'malt/pyct/error_utils.py', 'to_ret = MultilineMessageKeyError(self.get_message(), self.cause_message)',
+     'to_ret = KeyError(self.get_message())', ['malt.pyct.error_utils.ErrorMetadataBase.create_exception']),
+    ('c12-staging-for-everything', 'malt/impl/api.py', '''    exc = super(_ErrorMetadata, self).create_exception(source_error)
+    if exc is not None:
+      return exc
+''', '''    exc = None
+''', ['malt.impl.api._ErrorMetadata.create_exception']),
+    ('c13-partial-drops-keywords', 'malt/impl/api.py', '      new_kwargs = f.keywords.copy()', '      new_kwargs = {}',
+     ['malt.impl.api.converted_call']),
+    ('c13-allowlist-ignores-user-requested', 'malt/impl/api.py', 'if not options.user_requested and conversion.is_allowlisted(f):',
+     'if conversion.is_allowlisted(f):', ['malt.impl.api.converted_call']),
+    ('c13-unconverted-calls-twice', 'malt/impl/api.py', '''  if kwargs is not None:
+    return f(*args, **kwargs)
+  return f(*args)''', '''  if kwargs is not None:
+    f(*args, **kwargs)
+    return f(*args, **kwargs)
+  return f(*args)''', ['malt.impl.api._call_unconverted', 'malt.impl.api.converted_call']),
+    ('c13-rule-prefix-without-dot', 'malt/core/config_lib.py', "module_name.startswith(self._prefix + '.')",
+     'module_name.startswith(self._prefix)', ['malt.core.config_lib.Rule.matches']),
+    ('c10-code-cache-keys-by-function', 'malt/pyct/cache.py', '''    if hasattr(entity, '__code__'):
+      return entity.__code__
+    else:
+      return entity''', '''    return entity''', ['malt.pyct.cache.CodeObjectCache._get_key']),
+    ('c10-has-ignores-subkey', 'malt/pyct/cache.py', '    return subkey in parent', '    return True',
+     ['malt.pyct.cache._TransformedFnCache.has']),
 ]
 
 DRIVER = r'''
